@@ -287,4 +287,151 @@ theorem go_segs (segs : List Seg) (h : wfList segs = true) (k : List Char) (K : 
       rw [idxOf_extend _ _ _ (mem_addKey K (trim e))]
       simpa [List.append_assoc] using this
 
+
+
+theorem foldl_append_eq {α : Type} (acc : List α) (vs : List (List α)) :
+    vs.foldl (· ++ ·) acc = acc ++ vs.flatten := by
+  induction vs generalizing acc with
+  | nil => simp
+  | cons v vs ih => simp [ih]
+
+theorem reduceConcat_eq {α : Type} (vs : List (List α)) : reduceConcat vs = vs.flatten := by
+  simp [reduceConcat, foldl_append_eq]
+
+theorem leaves_list {α : Type} (vs : List (Val α)) : leaves (.list vs) = (vs.map leaves).flatten := by
+  simp [leaves]
+
+mutual
+theorem flat_eq_leaves {α : Type} : (v : Val α) → v.flat = leaves v
+  | .atom a => by simp [Val.flat, leaves]
+  | .list vs => by rw [Val.flat, leaves_list, flattenList_eq_leaves vs]; rfl
+theorem flattenList_eq_leaves {α : Type} : (vs : List (Val α)) → flattenList vs = leavesOfSubset vs
+  | [] => by simp [flattenList, leavesOfSubset]
+  | v :: vs => by
+    rw [flattenList, flat_eq_leaves v, flattenList_eq_leaves vs]; simp [leavesOfSubset]
+end
+
+
+
+theorem varName_inj {i j : Nat} (h : varName i = varName j) : i = j := by
+  simp only [varName, List.append_cancel_left_eq] at h
+  have := congrArg (fun d => Nat.ofDigitChars 10 d 0) h
+  simpa [Nat.ofDigitChars_ten_toDigits] using this
+
+theorem mem_firsts {α : Type} [DecidableEq α] (x : α) (l : List α) : x ∈ firsts l ↔ x ∈ l := by
+  induction l with
+  | nil => simp [firsts]
+  | cons a l ih =>
+    simp only [firsts, List.mem_cons, List.mem_filter, ih]
+    by_cases h : x = a <;> simp [h]
+
+theorem nodup_firsts {α : Type} [DecidableEq α] (l : List α) : (firsts l).Nodup := by
+  induction l with
+  | nil => simp [firsts]
+  | cons a l ih =>
+    simp only [firsts, List.nodup_cons, List.mem_filter]
+    exact ⟨by simp, ih.filter _⟩
+
+theorem mem_exprs (t : List Char) (segs : List Seg) :
+    t ∈ exprs segs ↔ ∃ e, Seg.embed e ∈ segs ∧ trimmed e = t := by
+  induction segs with
+  | nil => simp [exprs]
+  | cons s rest ih =>
+    cases s <;> simp [exprs, ih]
+    rw [eq_comm]
+
+theorem idxOf_inj {α : Type} [BEq α] [LawfulBEq α] {l : List α} {a b : α} (ha : a ∈ l) (hb : b ∈ l)
+    (h : l.idxOf a = l.idxOf b) : a = b := by
+  have h1 := List.idxOf_lt_length_of_mem ha
+  have h2 := List.idxOf_lt_length_of_mem hb
+  have e1 := List.getElem_idxOf h1
+  have e2 := List.getElem_idxOf h2
+  rw [← e1, ← e2]; simp [h]
+
+theorem lstrip_of_head (c : Char) (cs : List Char) (h : isPySpace c = false) : lstrip (c :: cs) = c :: cs := by
+  simp [lstrip, List.dropWhile_cons, h]
+
+theorem lstrip_trim (e : List Char) : lstrip (trim e) = trim e := by
+  unfold trim
+  cases h : lstrip e with
+  | nil => simp [rstrip, lstrip]
+  | cons c cs =>
+    have hc : isPySpace c = false := by
+      have := List.head?_dropWhile_not isPySpace e
+      simp only [lstrip] at h
+      simpa [h] using this
+    rw [rstrip_cons]
+    split
+    · simp [hc, lstrip_of_head]
+    · exact lstrip_of_head c _ hc
+
+
+
+theorem splitLinesAux_head (cur rest : List Char) (h : cur ≠ []) :
+    ∃ l ls, splitLinesAux cur false rest = (cur ++ l) :: ls := by
+  induction rest generalizing cur with
+  | nil => exact ⟨[], [], by simp [splitLinesAux, h]⟩
+  | cons c rest ih =>
+    simp only [splitLinesAux, Bool.false_eq_true, false_and, if_false]
+    split
+    · exact ⟨[], splitLinesAux [] (decide (c = '\r')) rest, by simp⟩
+    · obtain ⟨l, ls, e⟩ := ih (cur ++ [c]) (by simp)
+      exact ⟨c :: l, ls, by simp [e]⟩
+
+theorem pragmaLines_not_prefix (cur : Option Nat) (line : List Char) (ls : List (List Char))
+    (h : "#$".toList.isPrefixOf line = false) : pragmaLines cur (line :: ls) = .ok cur := by
+  simp only [pragmaLines, h, Bool.false_eq_true, if_false]
+
+theorem processPragma_no_prefix (code : List Char) (h : "#$".toList.isPrefixOf code = false) :
+    processPragma code = .ok none := by
+  unfold processPragma splitLines
+  match code, h with
+  | [], _ => simp [splitLinesAux, pragmaLines]
+  | [c], _ =>
+    simp only [splitLinesAux, Bool.false_eq_true, false_and, if_false]
+    split <;> simp [pragmaLines, List.isPrefixOf]
+  | c :: d :: rest, h =>
+    by_cases h1 : isLineBreak c = true
+    · simp only [splitLinesAux, Bool.false_eq_true, false_and, if_false, h1, if_true]
+      exact pragmaLines_not_prefix _ _ _ (by simp [List.isPrefixOf])
+    · by_cases h2 : isLineBreak d = true
+      · simp only [splitLinesAux, Bool.false_eq_true, false_and, if_false, h1, h2, if_true]
+        exact pragmaLines_not_prefix _ _ _ (by simp [List.isPrefixOf])
+      · simp only [splitLinesAux, Bool.false_eq_true, false_and, if_false, h1, h2]
+        obtain ⟨l, ls, e⟩ := splitLinesAux_head ([] ++ [c] ++ [d]) rest (by simp)
+        rw [e]
+        apply pragmaLines_not_prefix
+        simpa [List.isPrefixOf] using h
+
+
+
+theorem table_names (K : List (List Char)) : (table K).map (·.2) = (List.range' 0 K.length).map varName := by
+  have : (table K).map (·.2) = ((K.zipIdx 0).map Prod.snd).map varName := by
+    simp only [table, List.map_map]; rfl
+  rw [this, List.zipIdx_map_snd]
+
+theorem varName_ne_fixed (i : Nat) (s : List Char) (hs : s.head? = some 'B' ∨ s.head? = some 'F') :
+    varName i ≠ "PBK_".toList ++ s := by
+  intro h
+  simp only [varName, List.append_cancel_left_eq] at h
+  have hd : ∀ c ∈ Nat.toDigits 10 i, c.isDigit = true := fun c hc => Nat.isDigit_of_mem_toDigits (by decide) (by decide) hc
+  rw [h] at hd
+  cases s with
+  | nil => simp at hs
+  | cons c cs =>
+    have := hd c (by simp)
+    rcases hs with hs | hs <;> simp at hs <;> subst hs <;> simp [Char.isDigit] at this
+
+theorem boundNames_table_nodup (K : List (List Char)) : (boundNames (table K)).Nodup := by
+  unfold boundNames
+  rw [table_names, List.nodup_append]
+  refine ⟨?_, by decide, ?_⟩
+  · exact (List.nodup_range' (s := 0) (n := K.length)).map _ (fun a b hab h => hab (varName_inj h))
+  · intro a ha b hb
+    obtain ⟨i, _, rfl⟩ := List.mem_map.1 ha
+    simp only [List.mem_cons, List.not_mem_nil, or_false] at hb
+    rcases hb with rfl | rfl
+    · exact varName_ne_fixed i "BUFR_MESSAGE".toList (by simp)
+    · exact varName_ne_fixed i "FILENAME".toList (by simp)
+
 end Bufr.Script
